@@ -71,8 +71,13 @@ def gen_cases(ctx):
         # default, None, or changed through the env's setter; zero durations only without filter)
         c = E.gen_multi_case(rng)
         if c["generator"]["duration_range"][0] == 0:
-            c["constructor_filter"] = "none"
+            # zero durations: the clock is judged while no filter is in force
             c["setter"] = None
+            if i % 2:
+                c["constructor_filter"], c["setter_mid"] = "none", None
+            else:
+                c["constructor_filter"] = "default"
+                c["setter_mid"] = [rng.choice([0, 1]), rng.choice([1, 2]), "none"]
         yield c
     for i in range(ctx.scale(600, 60000)):
         # some steps of the history are performed by a rule solver (solver.step) on the caller's
@@ -337,9 +342,12 @@ def run_multi_env(ctx, case):
         ctx.count("clock_steps_checked")
         w = {"env": "multi", "event": event, "history": list(r.history), "filter": run.filter_names,
              "constructor_filter": case["constructor_filter"], "setter": case.get("setter")}
+        judged = run.filter_names is None or not run.r.has_zero
         if event == "reset":
             if now != 0 or comp:
                 ctx.violation("c06_clock_or_completed_set_not_reset", dict(w, clock=now))
+        elif event == "filter_changed" or not judged or last is None:
+            pass    # another filter from here on: monotonicity is judged anew
         else:
             if now < last:
                 ctx.violation("c06_clock_went_backwards", dict(w, before=last, after=now))
@@ -351,7 +359,7 @@ def run_multi_env(ctx, case):
                 ctx.count("completion_checks")
                 if now != r.makespan():
                     ctx.violation("c06_clock_not_makespan_at_completion", dict(w, clock=now, makespan=r.makespan()))
-        last, completed = now, comp
+        last, completed = (now, comp) if judged else (None, set())
     ctx.note_case(case, True, fingerprint="multi:%s:%s:%s" % (case["seed"], case["constructor_filter"],
                                                               case.get("setter")))
 
